@@ -126,11 +126,34 @@ theorem modifyCells_ok {s s' : State} {l : Nat} {f : Int → Int} {cond : Option
     o = .ok ∧ s' = { s with
       heap := upd s.heap s.next (fun c => if condHolds cond (s.heap (s.layers l).data c)
                 then f (s.heap (s.layers l).data c) else s.heap (s.layers l).data c),
+      adt := upd s.adt s.next (s.dtypeOf l),
       next := s.next + 1,
       layers := upd s.layers l { s.layers l with data := s.next } } := by
   unfold modifyCells State.layer? at h
   simp only [hl, if_true, Prod.mk.injEq] at h
   exact ⟨h.2.symm, h.1.symm⟩
+
+theorem modifyCellsT_ok {s s' : State} {l : Nat} {f : Int → Int} {cond : Option (Int → Bool)} {rd : DType}
+    {o : Out} (hl : l < s.nLayers) (h : modifyCellsT s l (some f) cond rd = (s', o)) :
+    o = .ok ∧ s' = { s with
+      heap := upd s.heap s.next (fun c => if condHolds cond (s.heap (s.layers l).data c)
+                then recode rd ((s.dtypeOf l).join rd) (f (s.heap (s.layers l).data c))
+                else recode (s.dtypeOf l) ((s.dtypeOf l).join rd) (s.heap (s.layers l).data c)),
+      adt := upd s.adt s.next ((s.dtypeOf l).join rd),
+      next := s.next + 1,
+      layers := upd s.layers l { s.layers l with data := s.next } } := by
+  unfold modifyCellsT State.layer? at h
+  simp only [hl, if_true, Prod.mk.injEq] at h
+  exact ⟨h.2.symm, h.1.symm⟩
+
+/-- `set_cells` with a Python scalar: refused iff the cast is not `same_kind`, else the plain `set_cells`
+    with the cast value -/
+theorem setCellsV_eq {s : State} {l : Nat} (hl : l < s.nLayers) (x : Val) (cond : Option (Int → Bool)) :
+    setCellsV s l x cond = if sameKind x.ty (s.dtypeOf l) then setCells s l (castTo (s.dtypeOf l) x) cond
+                           else (s, .err .type) := by
+  unfold setCellsV State.layer? State.dtypeOf
+  simp only [hl, if_true]
+  cases sameKind x.ty (s.adt (s.layers l).data) <;> simp
 
 theorem modifyCell_ok {s s' : State} {l : Nat} {c : Coord} {f : Option (Int → Int)}
     (h : modifyCell s l c f = (s', .ok)) :
